@@ -306,7 +306,7 @@ func (ip *Inode) Write(atxn *alloctxn.AllocTxn, offset uint64,
 	var data = dataBuf
 
 	util.DPrintf(5, "Write: off %d cnt %d\n", offset, count)
-	if offset+count > MaxFileSize() {
+	if util.SumOverflows(offset, count) || offset+count > MaxFileSize() {
 		return 0, false
 	}
 	for boff := off / disk.BlockSize; n > uint64(0); boff++ {
